@@ -613,7 +613,13 @@ def extract_items(u, repo, report):
             for need in ("from", "to", "sig", "tail"):
                 if need not in spec:
                     raise BuildError("block %s: missing `%s:`" % (blk["name"], need))
-            fc = [it for it in items if it[0] == "fn" and it[1] == blk["fn"] and not it[5]]
+            if "::" in blk["fn"]:
+                # a method: `Type::method` - the fn named `method` directly inside an impl whose header mentions `Type`
+                ty_, meth_ = blk["fn"].split("::", 1)
+                fc = [it for it in items if it[0] == "fn" and it[1] == meth_ and it[5] and it[5][-1][0] == "impl"
+                      and re.search(r"(?<![A-Za-z0-9_])%s(?![A-Za-z0-9_])" % re.escape(ty_), it[5][-1][1])]
+            else:
+                fc = [it for it in items if it[0] == "fn" and it[1] == blk["fn"] and not it[5]]
             if len(fc) != 1:
                 raise BuildError("anchor lost: fn %s for block %s: %d candidates" % (blk["fn"], blk["name"], len(fc)))
             fa, fb = toks[fc[0][2]][2], toks[fc[0][3]][3]
